@@ -4,7 +4,7 @@ from common import *
 import realdata
 
 PID = "C01"
-TIES = ['encode_varint', 'prepend_compact_size', 'parse_compact_size', 'op_push_data', 'tx_parts', 'tx_whole']   # source-tie files coq/Properties/Tie_<f>.v that belong to this property
+TIES = ['encode_varint', 'prepend_compact_size', 'parse_compact_size', 'op_push_data', 'tx_parts', 'tx_whole', 'tx_ids']   # source-tie files coq/Properties/Tie_<f>.v that belong to this property
 THEOREMS = ["C01_encode", "C01_roundtrip", "C01_reserialize", "C01_ids"]
 TECHNIQUE = "Coq proof (codec refinement to the consensus layout + parse/encode round-trip by induction) + extracted model/spec correspondence incl. 4347 real transactions"
 RULE = ("generated transactions: 1..40 inputs/outputs plus counts 252/253/300, any version/locktime/sequence/vout, amounts 0/1/2^63-1, "
